@@ -432,17 +432,18 @@ class bspline(object):
         nbkpt = self.mask.sum()
         if nbkpt <= 2*self.nord:
             return -2
-        hmm = err[np.unique(err/self.npoly)]/self.npoly
+        hmm = np.unique(np.atleast_1d(err).astype(int) // self.npoly)
         n = nbkpt - self.nord
         if np.any(hmm >= n):
             return -2
+        goodbk = self.mask.nonzero()[0]
         test = np.zeros(nbkpt, dtype='bool')
-        for jj in range(-np.ceil(self.nord/2.0), self.nord/2.0):
+        for jj in range(-((self.nord + 1)//2), self.nord//2):
             foo = np.where((hmm+jj) > 0, hmm+jj, np.zeros(hmm.shape, dtype=hmm.dtype))
             inside = np.where((foo+self.nord) < n-1, foo+self.nord, np.zeros(hmm.shape, dtype=hmm.dtype)+n-1)
             test[inside] = True
         if test.any():
-            reality = self.mask[test]
+            reality = goodbk[test]
             if self.mask[reality].any():
                 self.mask[reality] = False
                 return -1
